@@ -223,7 +223,7 @@ func (ex *Exec) typeInvTerm(fr *Frame, st *State, v Val) (string, []Clause) {
 		}
 		T = impl.Underlying().(*types.Pointer).Elem()
 		ref = v.L[1]
-		nonnil = not(eq(v.L[0], "0"))
+		nonnil = and(not(eq(v.L[0], "0")), not(eq(v.L[1], "0")))
 	default:
 		return "", nil
 	}
@@ -282,7 +282,7 @@ func (ex *Exec) checkTypeInvUnder(fr *Frame, st *State, v Val, what string, pos 
 		}
 		T = impl.Underlying().(*types.Pointer).Elem()
 		ref = v.L[1]
-		nonnil = not(eq(v.L[0], "0"))
+		nonnil = and(not(eq(v.L[0], "0")), not(eq(v.L[1], "0")))
 	default:
 		return
 	}
@@ -367,6 +367,12 @@ func (ex *Exec) finishRoot(fr *Frame, pre *State) {
 	// ghost updates
 	for _, gu := range ct.Updates {
 		ex.applyGhostUpdate(fr, st, pre, vars, gu)
+	}
+	// vacuity: a call-site clause that constrained no call at all is a contract that no longer applies
+	for _, cs := range ct.CallSites {
+		if ex.callSiteHits[cs.Label] == 0 && !ex.dry {
+			ex.errors = append(ex.errors, fmt.Sprintf("%s: call-site clause %s matched no call of %s", cs.Line, cs.Label, cs.Callee))
+		}
 	}
 	for _, c := range ct.Ensures {
 		en := ex.newEnv(fr, st, pre, vars)
@@ -794,7 +800,11 @@ func (ex *Exec) notFreshPart(r string, pre *State) string {
 
 func (ex *Exec) applyContract(fr *Frame, st *State, fn *ssa.Function, ct *FuncContract, args []Val, pos token.Pos) Val {
 	key := funcKey(fn)
-	ex.assumed["contract of "+key] = true
+	if ct.Trusted {
+		ex.trusted["contract of "+key+" (option trusted: assumed, its body is not verified)"] = true
+	} else {
+		ex.assumed["contract of "+key] = true
+	}
 	pre := st.clone()
 	vars := map[string]Val{}
 	for i, p := range fn.Params {
@@ -1004,6 +1014,9 @@ func (ex *Exec) onLock(fr *Frame, st *State, t *target, acquire bool, pos token.
 		}
 		S := t.S.Underlying().(*types.Struct)
 		if acquire {
+			savedActive := ex.modActive
+			ex.modActive = false // interference is not a write of this function
+			defer func() { ex.modActive = savedActive }()
 			// another goroutine may have changed the guarded fields: forget them, keep the invariant
 			for _, fname := range g.Fields {
 				for i := 0; i < S.NumFields(); i++ {
@@ -1468,6 +1481,9 @@ func solveOne(ex *Exec, o *Obligation, cfg *solveCfg) {
 			o.Status = "covered"
 			return
 		}
+		// reachability could not be decided quickly: informational only (model search through bulk memory operations is hard)
+		o.Status = "cover-unknown"
+		return
 	}
 	if !o.Cover {
 		queryMu.Lock()
@@ -1642,6 +1658,15 @@ func callersObligation(P *Program, fn *ssa.Function, ct *FuncContract) *Obligati
 			for _, in := range b.Instrs {
 				ci, ok := in.(ssa.CallInstruction)
 				if !ok {
+					continue
+				}
+				if cc := ci.Common(); cc.IsInvoke() && fn.Signature.Recv() != nil && cc.Method.Name() == fn.Name() {
+					// a call through an interface that fn's receiver type implements may reach fn
+					if it, ok := cc.Value.Type().Underlying().(*types.Interface); ok && types.Implements(fn.Signature.Recv().Type(), it) {
+						if !containsStr(ct.Callers, funcKey(root)) {
+							bad = append(bad, funcKey(f)+" (via interface "+typeKey(cc.Value.Type())+") at "+P.pos(in.Pos()))
+						}
+					}
 					continue
 				}
 				if ci.Common().StaticCallee() != fn {
